@@ -66,6 +66,8 @@ class Sim(object):
         self.tracer = self._make_tracer(self.S, None)
         self.sched_keys = set()
         self.point_lines = set()
+        self.func_log = None      # calibration only: pymeeus functions entered by the current op
+        self.funcs_by_name = {}
         self.module_reported = False
         self.import_names = import_names or {}
         self.total_steps = 0
@@ -95,6 +97,8 @@ class Sim(object):
 
         def tracer(frame, event, arg):
             if frame.f_code.co_filename.startswith(pm):
+                if sim.func_log is not None:
+                    sim.func_log.add(os.path.basename(frame.f_code.co_filename)[:-3] + '.' + frame.f_code.co_name)
                 return local
             return None
         return tracer
@@ -217,6 +221,8 @@ class Sim(object):
             return
         CLOCK.set_script(op.get('clock'))
         reads0 = CLOCK.reads
+        if self.cfg.get('trace_funcs'):
+            self.func_log = self.funcs_by_name.setdefault(op['name'], set())
         ctx.S = S
         S[0] = 0
         self._arm(ctx, S)
@@ -418,7 +424,7 @@ class Sim(object):
         items = [(0, val)]
         if isinstance(val, (tuple, list)):
             items = [(1 + i, x) for i, x in enumerate(val[:30])]
-            if _has_list(val) and not reachable([val])[1:]:
+            if _has_list(val) and all(kind_of(x) in ('list', 'tuple') for x in reachable([val])):
                 # a mutable container of plain values handed to the caller (e.g. the matrices of
                 # JupiterMoons.check_phenomena): it is the caller's from now on, watch it (O1.pool)
                 pool.register(base, val, op['task'], born=op['id'])
